@@ -126,12 +126,16 @@ def run_case(case):
         osys = (ms[0], ms[1], "molecule" if exact_units else ms[2])
         policy = r.choice(["on_iteration", "on_t_sample", "on_interval"])
         nsteps = {"euler": r.choice([50, 400]), "tauleap": r.choice([50, 400]), "gillespie": r.choice([300, 4000])}[kind_]
+        dt_k = dt
+        if kind_ == "tauleap" and r.random() < 0.4:
+            dt_k = dt * r.choice([10.0, 40.0])      # coarse leaps: draws exceed what the cells hold, counts undershoot below zero
+            nsteps = 60
         if case.get("long"):
             nsteps *= 10
-        horizon = nsteps * dt if kind_ != "gillespie" else nsteps / max(sum(mag), 1e-9)
+        horizon = nsteps * dt_k if kind_ != "gillespie" else nsteps / max(sum(mag), 1e-9)
         ts = sorted(r.uniform(0, horizon) for _ in range(r.randint(2, 12)))
         try:
-            script = simhelp.make_script(system, r, dt_si=dt, t_sample_si=[0.0] + ts, policy=policy, t_max_si=1e6 * horizon + 1.0,
+            script = simhelp.make_script(system, r, dt_si=dt_k, t_sample_si=[0.0] + ts, policy=policy, t_max_si=1e6 * horizon + 1.0,
                                          interval_si=horizon / r.randint(3, 20), usys=osys, isp="none",
                                          seed=r.randrange(2 ** 31))
             t, d, complete, out = simhelp.run_script(kind_, script, nsteps)
@@ -147,6 +151,8 @@ def run_case(case):
         tot = d.sum(axis=2)          # (T, S)
         absmax = np.abs(d).sum(axis=2).max(axis=0)   # per species
         cnt("trajectories_" + kind_)
+        if kind_ == "tauleap" and np.any(d < 0):
+            cnt("tauleap_trajectories_with_negative_counts")
         cnt("samples", d.shape[0])
         for c in laws:
             cv = np.array(c, dtype=float)
